@@ -6,7 +6,7 @@ from .readerlib import both_modes, canon, dump_dict, fixtures
 ID = 'C01'
 TARGETS = ['theories/Properties/C01.vo']
 THEOREMS = core.theorems_of(ID)
-LEVEL = ('proved (Properties/C01.v): for EVERY well-formed replay r (Model/Recorder.v: any version <= max, any ports, any frame history with rollbacks/absent characters/items, gecko blocks, Game End single/doubled/missing, metadata or none) the reader model returns exactly game_of r and consumes the whole stream emit r (C01_read); the regenerated reader/writer/size tables have the same shape, so the writer re-encodes every row to itself for every version (kernel-checked on every run); the writer half write(game_of r) = emit r is checked by the differential run and the byte-identity oracle on the real library until its proof lands; models tied to the code by differential runs (read->write->read->write on generated well-formed replays of every layout version, fixtures included)')
+LEVEL = ('proved (Properties/C01.v) for EVERY well-formed replay r (Model/Recorder.v: any version <= max, any ports, any frame history with rollbacks/absent characters/items, gecko blocks, Game End single/doubled/missing, metadata or none): the reader model returns exactly game_of r and consumes the whole stream emit r (C01_read), the writer model on that game returns exactly emit r (C01_write), hence read-then-write is the identity on the file (C01_roundtrip); the regenerated reader/writer/size tables have the same shape, so the writer re-encodes every row to itself for every version (kernel-checked on every run); models tied to the code by differential runs (read->write->read->write on generated well-formed replays of every layout version, fixtures included) and the byte-identity oracle on the real library')
 
 
 def gen(rng, n):
